@@ -14,6 +14,7 @@ import (
 	"encoding/hex"
 	"fmt"
 	"math/big"
+	"os"
 	"strings"
 	"testing"
 	"time"
@@ -234,6 +235,10 @@ func (w *c20World) ethTx(who int, to *gethcommon.Address, input []byte, gas uint
 	w.c.EndBlock()
 	if !ok {
 		w.failed++
+		if os.Getenv("C20_DEBUG") != "" {
+			resp, _ := evm.DecodeTxResponse(r.Data)
+			w.t.Logf("eth tx failed: code=%d log=%.300s resp=%v", r.Code, r.Log, resp)
+		}
 	}
 	return ok
 }
